@@ -65,7 +65,11 @@ Record graph := mkGraph {
 Record config := mkConfig {
   on_demand : bool;                (* Config.SummarizeOnDemand *)
   max_depth : option nat;          (* Config.UnsafeMaxDepth when > 0 *)
-  skip_bound_labels : bool         (* SlicingSpec.SkipBoundLabels *)
+  skip_bound_labels : bool;        (* SlicingSpec.SkipBoundLabels *)
+  (* two repairs of known defects; [false] = the pinned code.  The theorems hold for every setting; the tie tries the
+     pinned setting first. *)
+  fix_tuple : bool;                (* prevEdgeInfos takes every Out() edge info of the source (all tuple indices) *)
+  fix_ctrace : bool                (* the closure trace is used only when its top creates the closure being left *)
 }.
 
 Definition get_node (g : graph) (n : nid) : option node := PositiveMap.find n (nodes g).
@@ -169,7 +173,7 @@ Record cand := mkC {
   c_ctrace : list nid;
   c_closure : bool;
   c_info : Z;                      (* the edgeInfo argument of addNext (its Index) *)
-  c_pei : option Z                 (* Arg case: when added, append this index to prevEdgeInfos[cur] *)
+  c_pei : list Z                   (* Arg case: when added, append these indices to prevEdgeInfos[cur] *)
 }.
 
 Definition is_kind (g : graph) (n : nid) (k : kind) : bool :=
@@ -216,10 +220,7 @@ Definition add_next (g : graph) (cfg : config) (cur : vnode) (c : cand) (s : sta
   | VNo => (s, false)
   | VYes =>
       let next := next_of cur c in
-      let p := match c_pei c with
-               | Some i => pei_add (pei s) (v_node cur) i
-               | None => pei s
-               end in
+      let p := fold_left (fun m i => pei_add m (v_node cur) i) (c_pei c) (pei s) in
       (mkSt (next :: stack s) (key_of next :: seen s) p (traces s) (silent s) (visited s) (err s)
             (N.succ (n_adds s)), true)
   end.
@@ -303,7 +304,7 @@ Inductive expansion :=
 | XCands (cs : list cand) (report_if_none : bool).
 
 Definition plain (k : key) (tr : list nid) (n : nid) : cand :=
-  mkC n tr (k_ctrace k) (k_closure k) 0%Z None.
+  mkC n tr (k_ctrace k) (k_closure k) 0%Z [].
 
 Definition in_cands (k : key) (x : node) : list cand :=
   map (fun e => plain k (k_trace k) (fst e)) (n_in x).
@@ -388,6 +389,20 @@ Definition expand_param (g : graph) (k : key) (pc : pclass) (x : node) : expansi
       end
   end.
 
+(** the indices recorded in prevEdgeInfos when the In() source [e] of argument [a] is added: the index of the In()
+    edge; with the tuple repair, every index of the source's Out() edge to the argument *)
+Definition in_infos (g : graph) (cfg : config) (a : nid) (e : nid * Z) : list Z :=
+  if fix_tuple cfg then
+    match get_node g (fst e) with
+    | Some sx =>
+        match find (fun o => Pos.eqb (fst o) a) (n_out sx) with
+        | Some (_, (_ :: _) as l) => l
+        | _ => [snd e]
+        end
+    | None => [snd e]
+    end
+  else [snd e].
+
 Definition expand_arg (g : graph) (cfg : config) (k : key) (pc : pclass) (x : node) : expansion :=
   match get_node g (n_parent x) with
   | None => XCrash CrNoNode
@@ -412,7 +427,7 @@ Definition expand_arg (g : graph) (cfg : config) (k : key) (pc : pclass) (x : no
           | Some (Some sg) =>
               match nth_error (g_params sg) (n_idx x) with
               | Some (Some p) =>
-                  Some (Some [mkC p (n_parent x :: k_trace k) (k_ctrace k) (k_closure k) 0%Z None])
+                  Some (Some [mkC p (n_parent x :: k_trace k) (k_ctrace k) (k_closure k) 0%Z []])
               | _ => Some None
               end
           end
@@ -423,7 +438,7 @@ Definition expand_arg (g : graph) (cfg : config) (k : key) (pc : pclass) (x : no
       | Some (Some pcands) =>
           let bound :=
             if n_fb x then
-              flat_map (fun e => map (fun i => mkC (fst e) (k_trace k) (k_ctrace k) (k_closure k) 0%Z (Some i))
+              flat_map (fun e => map (fun i => mkC (fst e) (k_trace k) (k_ctrace k) (k_closure k) 0%Z [i])
                                      (snd e)) (n_out x)
             else [] in
           let tr := tl (k_trace k) in
@@ -434,7 +449,7 @@ Definition expand_arg (g : graph) (cfg : config) (k : key) (pc : pclass) (x : no
             end in
           let ins :=
             if follow_in then
-              map (fun e => mkC (fst e) tr (k_ctrace k) (k_closure k) 0%Z (Some (snd e))) (n_in x)
+              map (fun e => mkC (fst e) tr (k_ctrace k) (k_closure k) 0%Z (in_infos g cfg (k_node k) e)) (n_in x)
             else [] in
           XCands (pcands ++ bound ++ ins) true
       end
@@ -458,8 +473,8 @@ Definition expand_call (g : graph) (k : key) (pc : pclass) (x : node) (p : Posit
             let rets :=
               flat_map (fun r =>
                           match prev_edges with
-                          | [] => [mkC r tr (k_ctrace k) (k_closure k) 0%Z None]
-                          | _ => map (fun i => mkC r tr (k_ctrace k) (k_closure k) i None) prev_edges
+                          | [] => [mkC r tr (k_ctrace k) (k_closure k) 0%Z []]
+                          | _ => map (fun i => mkC r tr (k_ctrace k) (k_closure k) i []) prev_edges
                           end) (g_returns sg) in
             XCands (rets ++ in_cands k x) true
         end
@@ -487,7 +502,7 @@ Definition expand_boundvar (g : graph) (k : key) (x : node) : expansion :=
               match nth_error (g_freevars sg) (n_idx x) with
               | Some (Some fv) =>
                   XCands (in_cands k x ++
-                          [mkC fv (k_trace k) (n_parent x :: k_ctrace k) (k_closure k) 0%Z None]) false
+                          [mkC fv (k_trace k) (n_parent x :: k_ctrace k) (k_closure k) 0%Z []]) false
               | _ => XCrash CrIndex
               end
           end
@@ -503,20 +518,41 @@ Fixpoint bvs_at (g : graph) (k : key) (idx : nat) (l : list nid) : option (list 
       | None => None
       | Some cl =>
           match nth_error (n_list cl) idx, bvs_at g k idx l' with
-          | Some bv, Some r => Some (mkC bv (k_trace k) [] (k_closure k) 0%Z None :: r)
+          | Some bv, Some r => Some (mkC bv (k_trace k) [] (k_closure k) 0%Z [] :: r)
           | _, _ => None
           end
       end
   end.
 
-Definition expand_freevar (g : graph) (k : key) (pc : pclass) (x : node) : expansion :=
+(** the closure trace entry used to leave a closure: its top; with the repair only when that closure node creates
+    the closure the free variable belongs to *)
+Definition opos_eqb (a b : option positive) : bool :=
+  match a, b with
+  | Some x, Some y => Pos.eqb x y
+  | None, None => true
+  | _, _ => false
+  end.
+
+Definition ctrace_top (g : graph) (cfg : config) (k : key) (x : node) : option (nid * list nid) :=
+  match k_ctrace k with
+  | [] => None
+  | c :: crest =>
+      if fix_ctrace cfg then
+        match get_node g c with
+        | Some cl => if opos_eqb (n_sum cl) (Some (n_graph x)) then Some (c, crest) else None
+        | None => Some (c, crest)
+        end
+      else Some (c, crest)
+  end.
+
+Definition expand_freevar (g : graph) (cfg : config) (k : key) (pc : pclass) (x : node) : expansion :=
   match pc with
   | None => XCrash CrNilPrev
   | Some (same, _, _, _) =>
       if negb same then XCands (in_cands k x) true
       else
-        match k_ctrace k with
-        | c :: crest =>
+        match ctrace_top g cfg k x with
+        | Some (c, crest) =>
             match get_node g c with
             | None => XCrash CrNoNode
             | Some cl =>
@@ -524,12 +560,12 @@ Definition expand_freevar (g : graph) (k : key) (pc : pclass) (x : node) : expan
                 | [] => XCrash CrNoBoundVars
                 | _ =>
                     match nth_error (n_list cl) (n_idx x) with
-                    | Some bv => XCands [mkC bv [] crest true 0%Z None] true
+                    | Some bv => XCands [mkC bv [] crest true 0%Z []] true
                     | None => XCrash CrNoBoundVars
                     end
                 end
             end
-        | [] =>
+        | None =>
             match get_graph g (n_graph x) with
             | None => XCrash CrNoNode
             | Some sg =>
@@ -566,7 +602,7 @@ Definition expand_k (g : graph) (cfg : config) (k : key) (prev : option nid) (p 
             | KSynth => XCands (in_cands k x) false
             | KGlobal => expand_global g k x
             | KBoundVar => expand_boundvar g k x
-            | KFreeVar => expand_freevar g k pc x
+            | KFreeVar => expand_freevar g cfg k pc x
             | KClosure => XCands (map (fun b => plain k (k_trace k) b) (n_list x)) false
             | KBoundLabel => if skip_bound_labels cfg then XCands [] false else XCands (in_cands k x) false
             | KIf => XCrash CrUnhandled
@@ -672,13 +708,6 @@ Definition vclass (g : graph) (v : vnode) : option pclass :=
   match get_node g (v_node v) with
   | Some x => Some (class_of g x (prev_of v))
   | None => None
-  end.
-
-Definition opos_eqb (a b : option positive) : bool :=
-  match a, b with
-  | Some x, Some y => Pos.eqb x y
-  | None, None => true
-  | _, _ => false
   end.
 
 Definition pclass_eqb (a b : pclass) : bool :=
